@@ -251,6 +251,7 @@ def run(rep, facts, tier):
         c01.check_encode_term(rep, cfg)
         c01.check_compress_funnel(rep, cfg)
         homogeneity(rep, cfg)
+        c01.isqrt_zero_cases(rep, cfg)
         n += len(funnel(rep, cfg))
     if "R" in cfgs:
         # ToConstraintField lives behind the r1cs feature
